@@ -1,6 +1,7 @@
 package msg
 
 import (
+	"context"
 	"fmt"
 	"strconv"
 	"strings"
@@ -97,9 +98,12 @@ func checkPut(k *collector, valid, auto bool, times int, withData int) {
 	k.cases.Add(1)
 	k.nontriv.Add(1)
 	var r sse.Replayer
+	var vr *sse.ValidReplayer
+	now := time.Date(2030, 1, 1, 0, 0, 0, 0, time.UTC)
 	if valid {
 		v, _ := sse.NewValidReplayer(time.Hour, auto)
-		r = v
+		v.Now = func() time.Time { return now }
+		r, vr = v, v
 	} else {
 		f, _ := sse.NewFiniteReplayer(2, auto)
 		r = f
@@ -152,6 +156,22 @@ func checkPut(k *collector, valid, auto bool, times int, withData int) {
 			}
 		}
 	}
+	if auto && vr != nil {
+		// everything expires and is collected (explicitly, then again by the next Put): the numbering goes on
+		for round := 0; round < 2; round++ {
+			now = now.Add(2 * time.Hour)
+			if round == 0 {
+				vr.GC()
+			}
+			out, err := r.Put(m, []string{"a"})
+			if err != nil {
+				k.fail("C19: putting one message repeatedly fails", fmt.Sprintf("%s: Put after everything expired returned %v", what, err), what)
+				return
+			}
+			outs = append(outs, out)
+			ids = append(ids, out.ID.String())
+		}
+	}
 	if auto {
 		for t, id := range ids {
 			if id != strconv.Itoa(t) {
@@ -162,6 +182,56 @@ func checkPut(k *collector, valid, auto bool, times int, withData int) {
 				k.fail("C19: an earlier publication's ID changed when the message was published again", fmt.Sprintf("%s: publication #%d had ID %s, now %q", what, t+1, id, outs[t].ID.String()), what)
 				return
 			}
+		}
+	}
+}
+
+// scripted replayers for checkPublish
+type errReplayer struct{}
+
+func (errReplayer) Put(*sse.Message, []string) (*sse.Message, error) {
+	return nil, fmt.Errorf("scripted Put error")
+}
+func (errReplayer) Replay(sse.Subscription) error { return nil }
+
+type panicReplayer struct{}
+
+func (panicReplayer) Put(*sse.Message, []string) (*sse.Message, error) { panic("scripted Put panic") }
+func (panicReplayer) Replay(sse.Subscription) error                   { return nil }
+
+// checkPublish publishes one message value several times through a real Joe (no subscribers) with every kind
+// of replayer, accepted and rejected: the caller's message must stay what it was.
+func checkPublish(k *collector, rep string, auto bool, withID bool, times int) {
+	k.cases.Add(1)
+	k.nontriv.Add(1)
+	var r sse.Replayer
+	switch rep {
+	case "finite":
+		f, _ := sse.NewFiniteReplayer(2, auto)
+		r = f
+	case "valid":
+		v, _ := sse.NewValidReplayer(time.Hour, auto)
+		r = v
+	case "error":
+		r = errReplayer{}
+	case "panic":
+		r = panicReplayer{}
+	}
+	j := &sse.Joe{Replayer: r}
+	defer j.Shutdown(context.Background())
+	m := &sse.Message{Type: sse.Type("kind"), Retry: 3 * time.Second}
+	m.AppendComment("note")
+	m.AppendData("d0", "d1")
+	if withID {
+		m.ID = sse.ID("manual")
+	}
+	before := m.String()
+	what := fmt.Sprintf("Joe with replayer %s (autoIDs=%v), one message (ID set: %v) published %d times", rep, auto, withID, times)
+	for t := 0; t < times; t++ {
+		err := j.Publish(m, []string{"a"})
+		if m.String() != before || m.ID.IsSet() != withID || m.Type.String() != "kind" || m.Retry != 3*time.Second {
+			k.fail("C19: Publish modifies the message it is given", fmt.Sprintf("%s: after Publish #%d (returned %v) the caller's message encodes to %q (before: %q)", what, t+1, err, m.String(), before), what)
+			return
 		}
 	}
 }
@@ -207,10 +277,19 @@ var C19 = &sqrun.Check{ID: "C19", QuickBudget: 60, ThoroughBudget: 600,
 				}
 			}
 		}
+		for _, rep := range []string{"none", "finite", "valid", "error", "panic"} {
+			for _, auto := range []bool{false, true} {
+				for _, withID := range []bool{false, true} {
+					for times := 1; times <= 3; times++ {
+						checkPublish(k, rep, auto, withID, times)
+					}
+				}
+			}
+		}
 		cov := ev.Coverage{"evaluations": k.cases.Load(), "distinct_nontrivial": k.nontriv.Load(), "exhaustive": k.exhaustive(),
 			"clone_sequences": seqs, "depth": depth,
 			"samples": []any{describeSeq([]uint8{0, 0, 0, 9, 0, 1}), "replayer valid=false autoIDs=true, the same message (3 data lines) put 4 times"},
-			"rule":    fmt.Sprintf("every sequence of <= %d operations from {AppendData, AppendComment, set ID, Clone, UnmarshalText of a new event} x target message (family of at most 3 messages, clones of clones included), executed on real Messages and on a value model (copied slices); after every step every message must encode exactly like its model. Plus: one message put 1..6 times (0..5 data lines) through FiniteReplayer(2) and ValidReplayer in both ID modes: the caller's message stays byte-identical and unset, returned copies are independent, IDs consecutive, earlier publications keep their IDs (wrap-around of the finite buffer included). Publishing through Joe is covered by C04's oracle (IDs live = IDs returned by Put).", depth)}
+			"rule":    fmt.Sprintf("every sequence of <= %d operations from {AppendData, AppendComment, set ID, Clone, UnmarshalText of a new event} x target message (family of at most 3 messages, clones of clones included), executed on real Messages and on a value model (copied slices); after every step every message must encode exactly like its model. Plus: one message put 1..6 times (0..5 data lines) through FiniteReplayer(2) and ValidReplayer in both ID modes: the caller's message stays byte-identical and unset, returned copies are independent, IDs consecutive, earlier publications keep their IDs (wrap-around of the finite buffer included). Plus: one message published 1..3 times through a real Joe with no replayer, FiniteReplayer, ValidReplayer (both ID modes, with and without an ID of its own, so accepted and rejected), a replayer whose Put fails and one whose Put panics: the caller's message stays byte-identical. What subscribers receive is covered by C04's oracle (IDs live = IDs returned by Put).", depth)}
 		return &sqrun.Outcome{Level: "model_checking", Coverage: ev.Coverage(mergeMC(cov, seqs)), Assumptions: []string{"Message has no hidden state beyond what its encoding shows"}}
 	},
 }
